@@ -9,9 +9,14 @@ package main
 //   - presented id live            -> the handler gets that id and exactly the saved data
 //   - presented id dead / unknown  -> an empty session, Fresh()==true, whose id the KeyGenerator
 //     produced during this request (never the presented one)
-//   - exactly on a deadline, and between the earliest and the latest defensible absolute
-//     deadline after Regenerate/Reset (the statement does not say whether the absolute
-//     lifetime restarts) -> either; the model follows the implementation (unspecified_skipped)
+//   - absolute deadline = creation + AbsoluteTimeout ("maximum duration of the session ...
+//     regardless of activity"); no call moves it: not Save / Set / Get, and not Regenerate, which
+//     rotates the id of the same session (data and deadline kept). Only Reset, which ends the
+//     session and continues with an empty new one, may start a new lifetime
+//   - exactly on a deadline, and between the old absolute deadline and Reset time +
+//     AbsoluteTimeout after Reset (the statement does not say whether the empty session that
+//     follows a Reset gets a full lifetime) -> either; the model follows the implementation
+//     (unspecified_skipped)
 //   - idle deadline = time of the last Save + IdleTimeout (documented: only Save refreshes it;
 //     the middleware saves at the end of every request unless the session was destroyed)
 //
@@ -300,7 +305,13 @@ func (w *world) judgeSession(op Op, o *obsT, info *stepInfo) *viol {
 		case !strings.HasSuffix(cur.origin, "+"+kind):
 			cur.origin += "+" + kind
 		}
-		if m.cfg.Abs {
+		// Absolute deadline. AbsoluteTimeout is "the maximum duration of the session before it
+		// expires ... regardless of activity" (config.go, docs/middleware/session.md) and
+		// Regenerate "generates a new session id" for the SAME session (data kept): rotating
+		// the id is activity, the deadline fixed when the session was created stays. Reset
+		// ends the session and continues with an empty new one: whether that one lives until
+		// the old deadline or gets a full new lifetime is not said (either; never longer).
+		if m.cfg.Abs && kind == "reset" {
 			cur.hasAbs = true
 			if !resumed || t+AbsS < cur.absLo {
 				cur.absLo = t + AbsS
